@@ -659,8 +659,8 @@ pub fn gen_c20(dir: &str, thorough: bool) {
     let mut manifest = vec![];
     let wl: Vec<Vec<(u32, u32)>> = wig_layouts(3, CL).into_iter().filter(|l| l.iter().all(|(s, e)| e > s)).collect();
     let bl: Vec<Vec<(u32, u32)>> = bed_layouts(3, CL).into_iter().filter(|l| l.iter().all(|(s, e)| e > s)).collect();
-    let nw = if thorough { 60 } else { 14 };
-    let nb = if thorough { 40 } else { 10 };
+    let nw = if thorough { 400 } else { 20 };
+    let nb = if thorough { 300 } else { 16 };
     let pick = |n: usize, total: usize| -> Vec<usize> { (0..n).map(|i| (i * total / n + i * 7) % total).collect() };
     let vals = [1.0f32, 2.0, -3.0, 0.5, 4.0, -0.25];
     for (k, li) in pick(nw, wl.len()).into_iter().enumerate() {
